@@ -282,7 +282,9 @@ class Resolver:
                 return out
             if isinstance(e.func, ast.Name) and e.func.id in ("iter", "list", "reversed", "sorted", "set") and e.args:
                 return self._container_elem_of(f, e.args[0], env, benv)
-            if isinstance(e.func, ast.Attribute) and e.func.attr == "copy":
+            if isinstance(e.func, ast.Attribute) and e.func.attr in ("copy", "deepcopy"):
+                if self.m.dotted(f.rel, e.func) in ("copy.copy", "copy.deepcopy") and e.args:
+                    return self._container_elem_of(f, e.args[0], env, benv)
                 return self._container_elem_of(f, e.func.value, env, benv)
         if isinstance(e, ast.Subscript) and isinstance(e.slice, ast.Slice):
             return self._container_elem_of(f, e.value, env, benv)
@@ -308,10 +310,12 @@ class Resolver:
         self._ret[key] = set()
         f = self.m.funcs[q]
         out = set()
+        if f.node.returns is not None:
+            out |= self.ann_elem_classes(f.rel, ast.unparse(f.node.returns))
         env = self.env(f)
         benv = self.benv(f)
         for n in self.m.walk_own(f.node):
-            if isinstance(n, ast.Return) and n.value is not None:
+            if isinstance(n, ast.Return) and n.value is not None and not out:
                 out |= self._container_elem_of(f, n.value, env, benv)
         self._ret[key] = out
         return out
@@ -450,7 +454,8 @@ class Resolver:
                 cq = self.m.resolve_class_name(f.rel, fn.id) if fn.id not in env else None
                 if cq and fn.id[:1].isupper():
                     return {cq}
-                fq = self.m.resolve_func_name(f.rel, fn.id)
+                nv = self.nested_visible(f)
+                fq = nv.get(fn.id) or self.m.resolve_func_name(f.rel, fn.id)
                 if fq:
                     return self.ret_classes(fq) or None
                 return None
